@@ -337,6 +337,33 @@ class Ctx:
                                                              (" (invariant %s)" % res.violated) if res.violated else ""))
         self.violation(d, rep)
 
+    def apalache(self, module, init, inv, length, timeout=600, name=None):
+        """Optional unbounded obligation with Apalache (symbolic, SMT).  Returns True (holds), False (counter-example
+        on the MODEL: reported as a note, exit code unaffected unless the caller raises) or None (could not run /
+        timed out: a note, never a verdict)."""
+        path = os.path.join(SPEC, module + ".tla")
+        work = tempfile.mkdtemp(prefix="apa-", dir=self.scratch)
+        shutil.copy(path, work)
+        for d in [os.path.dirname(path)]:   # EXTENDS of sibling modules
+            for f in os.listdir(d):
+                if f.endswith(".tla") and not os.path.exists(os.path.join(work, f)):
+                    shutil.copy(os.path.join(d, f), work)
+        cmd = ["apalache-mc", "check", "--init=" + init, "--inv=" + inv, "--length=%d" % length,
+               "--out-dir=" + os.path.join(work, "out"), os.path.basename(path)]
+        t = time.time()
+        try:
+            p = subprocess.run(cmd, cwd=work, stdout=subprocess.PIPE, stderr=subprocess.STDOUT, text=True, timeout=timeout)
+            out = p.stdout
+        except (subprocess.TimeoutExpired, FileNotFoundError) as ex:
+            out = "TIMEOUT/UNAVAILABLE: %s" % ex
+        res = True if "The outcome is: NoError" in out else (False if "The outcome is: Error" in out else None)
+        ob = {"tool": "apalache", "module": module, "init": init, "inv": inv, "length": length, "holds": res,
+              "wall_s": round(time.time() - t, 1), "name": name or "%s:%s=>%s" % (module, init, inv)}
+        self.cov.setdefault("unbounded_obligations", []).append(ob)
+        self.log("Apalache %s: %s (%.0fs)" % (ob["name"], {True: "holds", False: "COUNTER-EXAMPLE", None: "not decided"}[res], ob["wall_s"]))
+        shutil.rmtree(work, ignore_errors=True)
+        return res
+
     # ---------------------------------------------------------------- verdicts
     def violation(self, desc, replay_obj):
         fp = fingerprint(replay_obj)
